@@ -143,7 +143,7 @@ structure Blocks where
   deriving DecidableEq, Repr
 
 def isMessageStart (l : Line) : Bool :=
-  (l.take 8).map Char.toUpper = "MESSAGE:".toList
+  (l.take 8).map Char.toUpper = ['M', 'E', 'S', 'S', 'A', 'G', 'E', ':']
 
 /-- message lines up to the blank terminator, and what follows -/
 def takeMessage : List Line → List Line × List Line
@@ -166,7 +166,7 @@ def logicalInputs (limit : Nat) (lines : List Line) : Blocks :=
 
 /-! ## read cards -/
 
-def lowerEq (w : Word) (s : String) : Bool := w.map Char.toLower = s.toList
+def lowerEq (w : Word) (s : List Char) : Bool := w.map Char.toLower = s
 
 /-- split a word at `=` (in key/value position `=` is equivalent to a blank) -/
 def splitEq (w : Word) : List Word := splitWords (w.map (fun c => if c = '=' then ' ' else c))
@@ -185,9 +185,9 @@ def cardOf (ws : List Word) : Card :=
   match ws with
   | [] => .notRead
   | r :: rest =>
-    if lowerEq r "read" then
+    if lowerEq r ['r', 'e', 'a', 'd'] then
       match rest.flatMap splitEq with
-      | [f, n] => if lowerEq f "file" then .read n else .badRead
+      | [f, n] => if lowerEq f ['f', 'i', 'l', 'e'] then .read n else .badRead
       | _ => .badRead
     else .notRead
 
